@@ -516,6 +516,89 @@ func genErr(r *rand.Rand) cpuCase {
 	return cpuCase{family: "err", text: g.text(), regs: initRegs(r, g), memSize: ms, mem: make([]int8, ms)}
 }
 
+// G-evict: a store that HITS the data cache (its line was loaded first), then a counted loop that
+// walks over more distinct lines than any first-level cache holds (stride 64 or 128, 20-70 lines), then
+// the dirty line is read again: a dirty victim must have been written back (C05).
+func genEvict(r *rand.Rand) cpuCase {
+	ms := 16384
+	g := newGen(r, 3+r.Intn(3), ms)
+	g.base = []int{9, 20}
+	a := r.Intn(32) * 64
+	g.emit("li s1, %d", a)
+	g.emit("li s4, %d", 4096+r.Intn(64)*64)
+	off := r.Intn(16) * 4
+	g.emit("lw %s, %d(s1)", g.reg(), off) // bring the line in
+	n := 1 + r.Intn(3)
+	for i := 0; i < n; i++ { // dirty it (hits)
+		g.emit("%s %s, %d(s1)", []string{"sw", "sb"}[r.Intn(2)], g.srcReg(), r.Intn(16)*4)
+	}
+	stride := []int{64, 128, 192}[r.Intn(3)]
+	lines := 18 + r.Intn(50)
+	g.emit("li s10, %d", lines)
+	l := g.label()
+	g.place(l)
+	g.emit("%s %s, %d(s4)", []string{"lw", "lb", "lh"}[r.Intn(3)], g.reg(), r.Intn(8)*4)
+	if r.Intn(3) == 0 {
+		g.emit("sw %s, %d(s4)", g.srcReg(), r.Intn(8)*4) // more dirty lines
+	}
+	g.emit("addi s4, s4, %d", stride)
+	g.emit("andi s4, s4, %d", ms-1-63)
+	g.emit("addi s10, s10, -1")
+	g.emit("bnez s10, %s", l)
+	g.emit("lw %s, %d(s1)", g.reg(), off) // read the (evicted) dirty line again
+	g.body(r.Intn(3), false)
+	if r.Intn(2) == 0 {
+		g.emit("ret")
+	}
+	return cpuCase{family: "evict", text: g.text(), regs: initRegs(r, g), memSize: ms, mem: randMem(r, ms)}
+}
+
+// G-jumps: many DISTINCT unconditional jumps (more than a branch target buffer holds), some taken
+// repeatedly inside a loop, with link registers that are read afterwards.
+func genJumps(r *rand.Rand) cpuCase {
+	ms := 256
+	g := newGen(r, 3+r.Intn(4), ms)
+	loop := r.Intn(2) == 0
+	var top string
+	if loop {
+		g.emit("li s10, %d", 2+r.Intn(3))
+		top = g.label()
+		g.place(top)
+	}
+	k := 5 + r.Intn(6)
+	for i := 0; i < k && g.nInstr < 200; i++ {
+		l := g.label()
+		switch r.Intn(3) {
+		case 0:
+			g.emit("j %s", l)
+		case 1:
+			rd := g.reg()
+			g.emit("jal %s, %s", rd, l)
+			g.body(r.Intn(2), false) // dead
+			g.place(l)
+			g.emit("addi %s, %s, %d", g.reg(), rd, g.smallImm()) // the link value is used
+			continue
+		default:
+			t := g.reg()
+			g.emit("li %s, %d", t, 4*(g.nInstr+2))
+			g.emit("jalr %s, %s, 0", []string{"zero", g.reg()}[r.Intn(2)], t)
+			g.body(r.Intn(2), false)
+			continue
+		}
+		g.body(r.Intn(2), false) // dead code
+		g.place(l)
+		g.body(r.Intn(2), false)
+	}
+	if loop {
+		g.emit("addi s10, s10, -1")
+		g.emit("bnez s10, %s", top)
+	}
+	if r.Intn(2) == 0 {
+		g.emit("ret")
+	}
+	return cpuCase{family: "jumps", text: g.text(), regs: initRegs(r, g), memSize: ms, mem: make([]int8, ms)}
+}
+
 func genCase(r *rand.Rand, family string) cpuCase {
 	switch family {
 	case "alu":
@@ -540,6 +623,10 @@ func genCase(r *rand.Rand, family string) cpuCase {
 		return genPair(r)
 	case "err":
 		return genErr(r)
+	case "evict":
+		return genEvict(r)
+	case "jumps":
+		return genJumps(r)
 	}
 	panic("unknown family " + family)
 }
